@@ -1,7 +1,6 @@
 package goose
 
 import (
-	"fmt"
 	"go/ast"
 	"go/types"
 
@@ -120,18 +119,23 @@ func (ctx Ctx) coqTypeOfType(n ast.Node, t types.Type) coq.Type {
 	return nil // unreachable
 }
 
-func sliceElem(t types.Type) types.Type {
+// sliceElem returns the element type of the slice type t; n is the node whose
+// type t is, for the error report when t is something else (a named slice
+// type, a type parameter).
+func (ctx Ctx) sliceElem(n ast.Node, t types.Type) types.Type {
 	if t, ok := t.(*types.Slice); ok {
 		return t.Elem()
 	}
-	panic(fmt.Errorf("expected slice type, got %v", t))
+	ctx.unsupported(n, "expected slice type, got %v", t)
+	return nil
 }
 
-func ptrElem(t types.Type) types.Type {
+func (ctx Ctx) ptrElem(n ast.Node, t types.Type) types.Type {
 	if t, ok := t.(*types.Pointer); ok {
 		return t.Elem()
 	}
-	panic(fmt.Errorf("expected pointer type, got %v", t))
+	ctx.unsupported(n, "expected pointer type, got %v", t)
+	return nil
 }
 
 func (ctx Ctx) arrayType(e *ast.ArrayType) coq.Type {
